@@ -193,7 +193,8 @@ func (s *snapshotSink) done(err error) (snapshotMeta, error) {
 	}
 	s.meta.size = info.Size()
 
-	file := filepath.Join(s.snaps.dir, "meta.tmp")
+	// one temp file per snapshot: a local snapshot and an installation may complete concurrently
+	file := filepath.Join(s.snaps.dir, fmt.Sprintf("%d.meta.tmp", s.meta.index))
 	temp, err := os.OpenFile(file, os.O_WRONLY|os.O_CREATE|os.O_TRUNC, 0600)
 	if err != nil {
 		return s.meta, err
